@@ -60,11 +60,44 @@ def ofIntBits (n : Int) : Nat :=
     if q' == 16777216 then s + (127 + l + 1) * 8388608
     else s + (127 + l) * 8388608 + (q' - 8388608)
 
+/-- bits of the `f32` nearest to the natural number `a` (ties to even), sign bit clear -/
+def ofNatBits (a : Nat) : Nat := ofIntBits (Int.ofNat a)
+
+/-- The integer that `{}` prints for an integral `f32` of magnitude `v` and (sign-less) bit pattern `b`:
+    the shortest decimal digits that read back to the same `f32`, padded with zeros; among the candidates
+    with the fewest digits the one nearest to `v`. -/
+def shortestLoop (v b : Nat) : Nat → Nat
+  | 0 => v
+  | k + 1 =>
+    let p := 10 ^ (k + 1)
+    let lo := (v / p) * p
+    let hi := lo + p
+    let okLo := lo != 0 && ofNatBits lo == b
+    let okHi := ofNatBits hi == b
+    if okLo && okHi then (if v - lo ≤ hi - v then lo else hi)
+    else if okLo then lo
+    else if okHi then hi
+    else shortestLoop v b k
+
+def intDigitsBits (b : Nat) : Option Int :=
+  match toIntBits b with
+  | none => none
+  | some n =>
+    let v := n.natAbs
+    let d := shortestLoop v (b % 2147483648) 39
+    some (if signBit b then -(Int.ofNat d) else Int.ofNat d)
+
+def bigBits (b : Nat) : Bool :=
+  match toIntBits b with
+  | none => false
+  | some n => decide (n.natAbs ≥ 2147483648)
+
 def ops : RealOps UInt32 where
   beq a b := beqBits a.toNat b.toNat
   neg a := UInt32.ofNat (negBits a.toNat)
   ofInt n := UInt32.ofNat (ofIntBits n)
-  toInt? a := toIntBits a.toNat
+  intDigits? a := intDigitsBits a.toNat
+  big a := bigBits a.toNat
   special a := specialBits a.toNat
 
 end Content.F32
